@@ -808,6 +808,17 @@ def parse_on_enter(ct: Container, rep, rule="parse-on-enter"):
         rep.ok(rule, f"{fq}: table = [TdfEntry._build(handle) for range(nEntries read from the header)] on every entry", nontrivial=True)
     else:
         rep.fail(rule, MOD(ct), fq, st, "the table is not rebuilt as nEntries (from the header) decoded entries")
+    # the list index of an entry IS its slot number (add_block / remove_block seek to 64 + 288 * index): nothing in the class may
+    # reorder the table - a sort (by offset, by type), a reverse, or a sorted copy bound back to it puts the entries of a file whose
+    # unused slots do not already sort last under other slots than the ones they were read from
+    for f_ in ct.tdf.all_funcs():
+        for x in walk_no_nested(f_.node):
+            if isinstance(x, ast.Call) and isinstance(x.func, ast.Attribute) and x.func.attr in ("sort", "reverse") and ct.is_entries(x.func.value):
+                rep.fail(rule, MOD(ct), f"Tdf.{f_.name}", x, f"`{norm(x)[:60]}` reorders the parsed table: an entry's list index no longer is its slot number, and the table writes of add_block / remove_block "
+                         "(64 + 288 * index) land in other slots than the entries came from", construct=f"Tdf.{f_.name} reorders the table")
+            elif isinstance(x, ast.Assign) and any(ct.is_entries(t) for t in x.targets) and isinstance(x.value, ast.Call) and norm(x.value.func) in ("sorted", "reversed", "list") \
+                    and x.value.args and any(isinstance(y, ast.Call) and norm(y.func) in ("sorted", "reversed") for y in ast.walk(x.value)):
+                rep.fail(rule, MOD(ct), f"Tdf.{f_.name}", x, f"`{norm(head(x))[:60]}` rebinds the table to a reordered copy: list index and slot number no longer agree", construct=f"Tdf.{f_.name} reorders the table")
     # handle opened on every entry, before the reads
     for e in walk_no_nested(enter.node):
         if isinstance(e, ast.If) and any(ct.is_entries(t) for s in ast.walk(e) if isinstance(s, ast.Assign) for t in s.targets):
